@@ -1,12 +1,32 @@
-"""Property registry: engine, claimed level, notes.  tools/gen_manifest.py turns it into MANIFEST.json."""
+"""Property registry.  Every engine module harness/eng_*.py defines a module-level dict
+PROPS = {"Cxx": dict(spec=..., category=..., design_ref=..., technique=..., text=..., note=...)}
+and a function run(prop_id, tier, seed, replay=None) -> exit code.  Engine modules must be
+import-light (no jax/genjax import at module level).  tools/gen_manifest.py turns this into
+MANIFEST.json; harness/main.py dispatches on it."""
+import glob
+import importlib
+import os
+import sys
 
-PROPS = {
-    "C18": dict(
-        engine="eng_selections", spec="Selections",
-        category="model_checking", design_ref="§5 C18",
-        technique="TLA+ spec (Selections.tla) model-checked by TLC; TLC-enumerated terms replayed on the real Selection classes and compared with the TLC-computed denotation",
-        text="Bounded-exhaustive: TLC enumerates every selection term up to depth 2 (thorough: 3) over 12 atoms plus LCG-generated depth-4 terms, checks Mem<=>Den, the sub-selection law and soundness of the simplifying constructors on the spec itself, and every term is replayed on the implementation for all 40 addresses of length <=3 (membership via [], in, and every prefix/suffix split of sel(a)[b]), both with public constructors and raw dataclasses.",
-        note="Trusted: TLC, the Python term builder (public API calls only), address universe {a,b,c}^<=3.",
-    ),
-}
+# properties deliberately not claimed, with the reason (goes to MANIFEST.not_applicable)
 NOT_APPLICABLE = {}
+
+
+def discover():
+    props = {}
+    here = os.path.dirname(os.path.abspath(__file__))
+    for path in sorted(glob.glob(os.path.join(here, "eng_*.py"))):
+        name = os.path.splitext(os.path.basename(path))[0]
+        try:
+            mod = importlib.import_module("harness." + name)
+        except Exception as e:  # a broken engine must not take the others down
+            print(f"registry: cannot import {name}: {e!r}", file=sys.stderr)
+            continue
+        for pid, p in getattr(mod, "PROPS", {}).items():
+            q = dict(p)
+            q["engine"] = name
+            props[pid] = q
+    return props
+
+
+PROPS = discover()
